@@ -255,6 +255,8 @@ def check_has(fx, rep, mg):
 
 
 def run(fx, rep):
+    from .report import producer_rules
+    producer_rules(fx, rep, 'producer rule: index, `in`, select and list/map literal nodes are built from their own children in source order (C04 R3/R7/R8/R9)', [('c04', 'C04', '^(R3/visit_Index/|R3/visit_relation/|R7/visit_(Index|relation|Select|CreateList|CreateStruct)/|R8/|R9/)')], 20)
     mg = 'cel_interpreter::objects::Map::get'
     check_has(fx, rep, mg)
     n = core(fx, rep, 'cel_interpreter', mg, {mg, mg + '::{closure#0}'})
